@@ -298,8 +298,6 @@ FILE_FAMILIES = [
     dict(name="v6-v4mapped", family=6, parts=[(0, 80), (0xffff, 16), (0xc0, 8), ("s", 8), ("t", 16)], b4=8, b6=112),
     dict(name="v6-tail", family=6, parts=[(0x20010db8, 32), (0, 64), ("s", 16), ("t", 16)], b4=8, b6=112),
     dict(name="v4-three-octets", family=4, parts=[("s", 8), ("t", 8), ("u", 8), (9, 8)], b4=8, b6=8),
-    dict(name="v6-v4mapped-wide", family=6, parts=[(0, 80), (0xffff, 16), ("s", 16), ("t", 16)], b4=8, b6=96),
-    dict(name="v6-embedded-zero-run", family=6, parts=[(0x2001, 16), (0, 32), ("s", 16), (0, 48), ("t", 16)], b4=8, b6=112),
 ]
 
 
